@@ -33,6 +33,6 @@ From SqlModel.Filters Require Import Aligned AlignedSpec AlignedSplit AlignedFac
 Definition C10_aligned_own_line := aligned_own_line.
 Definition C10_aligned_own_line_text := aligned_own_line_text.
 Definition C10_aligned_rspec := aligned_stmt_rspec.
-Definition C10_aligned_total_refuted := aligned_total_refuted.
+Definition C10_aligned_case_end_fixed := aligned_case_end_fixed.   (* was C10_aligned_total_refuted until the fixes of C07-AL-1 / C07-RX-1 *)
 Print Assumptions aligned_own_line.
 Print Assumptions aligned_stmt_rspec.
